@@ -448,4 +448,21 @@ theorem fstep_of_lr_step {F : Frame} {fs : FSt} {op : Op} {w : WSt} (hw : step F
   simp only [fstep, hw]
   cases op <;> exact ⟨_, rfl⟩
 
+/-- run a list of frame ops -/
+def frun (F : Frame) : FSt → List FOp → Option FSt
+  | fs, [] => some fs
+  | fs, op :: ops => match fstep F fs op with
+    | some fs' => frun F fs' ops
+    | none => none
+
+theorem freach_of_frun {F : Frame} {fs fs' : FSt} (h : FReach F fs) (ops : List FOp) (e : frun F fs ops = some fs') :
+    FReach F fs' := by
+  induction ops generalizing fs with
+  | nil => simp [frun] at e; subst e; exact h
+  | cons op t ih =>
+    simp only [frun] at e
+    split at e
+    · rename_i fs1 h1; exact ih (FReach.step h h1) e
+    · simp at e
+
 end DecWf
